@@ -53,7 +53,7 @@ def run(ctx):
     ctx.model("SyncPrims", "MC_SyncPrims", workers=8, timeout=600, must_cover=True)
     # V: recorded free-running executions with jitter
     rec = vlib.build_harness(lib, "c13_record", ["c13_record.cpp"])
-    files = ctx.record(rec, ctx.pick(8, 32), ctx.pick(20000, 150000), "V/SyncPrims", timeout=ctx.pick(300, 1500))
+    files = ctx.record(rec, ctx.pick(8, 32), ctx.pick(20000, 150000), "V/SyncPrims", timeout=ctx.pick(1200, 3600))
     ctx.validate_traces("Trace_SyncPrims", "Trace_SyncPrims", files, label="V/SyncPrims", timeout=ctx.pick(600, 2400))
     ctx.assumptions += [
         "schedule points are the ASL_VERIF hook points of Thread.h; each step runs from one point to the next",
